@@ -73,10 +73,9 @@ namespace hs
             [](const void* mem, std::size_t size, const void* ptr)
             {
                 auto& h = handlers();
+                if (h.overflow_calls < 4)
+                    h.overflow[h.overflow_calls] = {mem, size, ptr};
                 ++h.overflow_calls;
-                h.overflow_mem  = mem;
-                h.overflow_size = size;
-                h.overflow_ptr  = ptr;
             });
         fm::out_of_memory::set_handler([](const fm::allocator_info&, std::size_t)
                                        { ++handlers().oom_calls; });
@@ -277,6 +276,10 @@ namespace hs
             op_reserve(op);
         else if (k == "tdf")
             op_foreign(op);
+        else if (k == "cor")
+            op_corrupt(op);
+        else if (k == "corsweep")
+            op_corsweep(op);
         else
             throw Skip{"unknown op " + k};
     }
@@ -330,7 +333,7 @@ namespace hs
                     "during %s of a contract-respecting history the invalid pointer handler fired "
                     "(%s)",
                     what, h.invalid_name.c_str());
-        if (h.overflow_calls)
+        if (h.overflow_calls && !expect_overflow_)
             violate("C17", "false_overflow_report",
                     "during %s the buffer overflow handler fired although nothing wrote out of bounds",
                     what);
@@ -845,11 +848,38 @@ namespace hs
             if (c.kind == K_COLL)
                 pc0 = S.o->reading(2, a.size);
         }
+        auto& hd = handlers();
+        expect_overflow_ = a.cor_pre || a.cor_post;
+        hd.overflow_calls = 0;
         heap.begin_op(0);
         bool ok = S.o->deallocate(r, a.p);
         auto calls = heap.op_calls();
         heap.end_op();
         after_sut_call("deallocation");
+        if (expect_overflow_)
+        {
+            expect_overflow_ = false;
+            unsigned want = (a.cor_pre ? 1 : 0) + (a.cor_post ? 1 : 0);
+            if (hd.overflow_calls != want)
+                violate("C17", "overflow_not_reported", "%u fence(s) of a %zu-byte node were overwritten, the "
+                                                        "buffer overflow handler was called %u time(s)",
+                        want, a.bytes, hd.overflow_calls);
+            const char* exp[2] = {a.cor_pre, a.cor_post};
+            unsigned    n      = 0;
+            for (auto e : exp)
+            {
+                if (!e)
+                    continue;
+                auto& o = hd.overflow[n++];
+                if (o.mem != a.p || o.size != a.bytes || o.ptr != e)
+                    violate("C17", "overflow_report_wrong",
+                            "handler got (memory %+td, size %zu, write_ptr %+td), expected (memory +0, size "
+                            "%zu, write_ptr %+td) relative to the node",
+                            (const char*)o.mem - a.p, o.size, (const char*)o.ptr - a.p, a.bytes, e - a.p);
+            }
+            hd.overflow_calls = 0;
+            stats().hit("fault.fence_corruption_reported", want);
+        }
         hash_.add(0xF0);
         hash_.add(heap.off(a.p));
         nontrivial_release_ = true;
@@ -1514,5 +1544,85 @@ namespace hs
             violate("C08", "foreign_dealloc_changed_state", "try_deallocate returned false but the allocator's "
                                                             "capacity readings changed");
         shadow_.check(a, "C08,C01", "after a refused try_deallocate");
+    }
+} // namespace hs
+
+namespace hs
+{
+    //=== C17: fence corruption on the low-level allocators ===//
+    std::size_t Interp::fence_of(ObjSt& S)
+    {
+        if (!FENCE || S.o->caps.kind != K_LOWLEVEL)
+            return 0;
+        return S.o->name == "ll.virtual" ? 4096 : 16; // page resp. max_alignment, whatever DEBUG_FENCE says
+    }
+
+    void Interp::op_corrupt(const Op& op)
+    {
+        // cor victim side offset value: the caller writes one byte into a fence of a live node
+        if (!shadow_.size())
+            return;
+        auto  i = std::size_t(op.arg(0) < 0 ? -op.arg(0) : op.arg(0)) % shadow_.size();
+        auto& a = shadow_.nth(i);
+        auto  S = live_obj(a.obj);
+        if (!S)
+            return;
+        auto f = fence_of(*S);
+        if (!f)
+            return;
+        bool pre = op.arg(1) % 2 == 0;
+        auto off = std::size_t(op.arg(2)) % f;
+        auto val = (unsigned char)op.arg(3);
+        char* at = pre ? a.p - f + off : a.p + a.bytes + off;
+        if (val == 0xFD)
+            return; // same as the fence pattern: not a corruption
+        *at = (char)val;
+        auto& low = pre ? a.cor_pre : a.cor_post;
+        if (!low || at < low)
+            low = at;
+        stats().hit("fault.fence_byte_written");
+        hash_.add(0xC0 + (pre ? 1 : 0));
+    }
+
+    void Interp::op_corsweep(const Op& op)
+    {
+        // corsweep obj size_index: complete table side x offset x value for one node size
+        auto S = live_obj(op.arg(0));
+        if (!S)
+            return;
+        auto f = fence_of(*S);
+        if (!f)
+            return;
+        static const std::size_t sizes[] = {1, 7, 8, 16, 24, 100};
+        auto                     size    = sizes[std::size_t(op.arg(1)) % 6];
+        int                      idx     = index_of(*S);
+        int                      fam     = op.arg(2) % 2 ? TRAITS : MEMBER;
+        std::uint64_t            cases   = 0;
+        for (int side = 0; side < 2; ++side)
+            for (std::size_t off = 0; off < f; ++off)
+            {
+                // the page-sized fences of virtual memory: first and last 24 offsets and every 97th
+                if (f > 64 && off >= 24 && off + 24 < f && off % 97)
+                    continue;
+                for (unsigned val = 0; val < 256; ++val)
+                {
+                    if (val == 0xFD)
+                        continue;
+                    if (f > 64 && val % 16 != int(off % 16) && val != 0 && val != 255)
+                        continue;
+                    Req    r{fam, false, 1, size, 1};
+                    Alloc* a = nullptr;
+                    if (!do_alloc(*S, idx, r, 0, &a, false))
+                        return;
+                    char* at = side == 0 ? a->p - f + off : a->p + a->bytes + off;
+                    *at      = (char)val;
+                    (side == 0 ? a->cor_pre : a->cor_post) = at;
+                    shadow_.check(*a, "C01", "before release");
+                    do_free(shadow_.take(a->p));
+                    ++cases;
+                }
+            }
+        stats().hit("reach.fence_table_cases", cases);
+        stats().hit("reach.fence_table_complete." + S->o->name + "." + std::to_string(size));
     }
 } // namespace hs
